@@ -98,7 +98,7 @@ def gen_movie(rng, thorough=False, plant_history=False, dense=False):
             pts.append(list(rng.choice(pts)))                # exact duplicate position
         rng.shuffle(pts)
         frames.append(pts)
-    inp = dict(dim=dim, frames=frames, t0=rng.choice([0, 0, 1, 5, 17]), sr=sr, iso=iso,
+    inp = dict(dim=dim, frames=frames, t0=rng.choice([0, 0, 1, 5, 17, -3, -8]), sr=sr, iso=iso,
                memory=memory, strategy="recursive", entry="link_iter", missing=[])
     return inp
 
@@ -380,6 +380,28 @@ def run_movie_case(ctx, inp, want=("valid", "optimal"), prop="C01", maxsize=30):
         if v == "capped":
             res.stat("capped_raise")
         res.nontrivial = (c + r) > 0
+        # function mode: when every step's optimum is unique the implementation's partition must be
+        # the one of the deterministic algorithm model (Props/C02Algo algo_accepted)
+        if (v == "ok" and m.get("ties") == "0" and m.get("capped") == "0" and "optimal" in want
+                and inp.get("strategy") != "drop"):
+            a = ctx.ask(lrun_line(inp, levels, maxsize=maxsize).replace("LRUN", "LALGO", 1))
+            if a.startswith("ok"):
+                alab = [[int(x) for x in part.split(",") if x != ""] for part in a[3:].split("|")]
+                if len(alab) == len(levels) and all(len(x) == len(l[2]) for x, l in zip(alab, levels)):
+                    def part(labs):
+                        d = {}
+                        for k, ls in enumerate(labs):
+                            for i, l in enumerate(ls):
+                                d.setdefault(l, []).append((k, i))
+                        return frozenset(tuple(x) for x in d.values())
+                    res.stat("function_mode_compared")
+                    if part(alab) != part([l[2] for l in levels]):
+                        res.violation("correspondence-break",
+                                      "unique optimum at every step, yet the implementation's partition "
+                                      "differs from the deterministic algorithm model",
+                                      impl=[l[2] for l in levels], model=alab,
+                                      broken="LinkerAlgo.algoLabels (function mode)",
+                                      signature=dict(stream="step", what="function-mode-differs"))
         if res.nontrivial and len(levels) <= 4:
             res.sample = dict(input=inp, implementation_levels=levels, monitor=m)
         return res
